@@ -302,7 +302,7 @@ fn stream_texts(ctx: &mut Ctx, alpha: Alpha, from: usize, upto: usize, idx: &mut
     let mut g = Gen::new(alpha);
     for size in from..=upto {
         let mut todo = vec![];
-        let mut flush = |ctx: &mut Ctx, todo: &mut Vec<(Ast, u64)>| {
+        let flush = |ctx: &mut Ctx, todo: &mut Vec<(Ast, u64)>| {
             for (a, i) in todo.drain(..) {
                 if !has_count(&a) {
                     continue;
